@@ -57,7 +57,9 @@ TEXTS = [("none", None, None), ("quoted", b"Quota exceeded", "quoted"),
          ("quoted-1024", b"q" * 1024, "quoted"),
          ("quoted-1024-utf8", "é".encode() * 512, "quoted"),
          ("literal-1024", b"l" * 1024, "literal"), ("literal-1025", b"l" * 1025, "literal"),
-         ("literal-4096", b"l" * 4096, "literal"), ("literal-70000", b"l" * 70000, "literal")]
+         ("literal-4096", b"l" * 4096, "literal"), ("literal-70000", b"l" * 70000, "literal"),
+         # RFC 5804 literals go up to 2^32-1 octets; well past every megabyte-sized guard
+         ("literal-5MiB", b"m" * (5 * 1024 * 1024 + 3), "literal")]
 BOOL_OPS = {"havespace": ("x", 10), "putscript": ("x", "keep;"), "checkscript": ("keep;",),
             "deletescript": ("x",), "setactive": ("x",), "renamescript": ("x", "y")}
 DATA_OPS = {"getscript": ("x",), "listscripts": (), "capability": ()}
@@ -71,6 +73,10 @@ def all_cases():
         for st in ("OK", "NO", "BYE"):
             for cn, code in CODES:
                 for tn, text, how in TEXTS:
+                    if tn == "literal-5MiB" and (cn not in ("none", "warnings") or
+                                                 op not in ("deletescript", "getscript",
+                                                            "putscript")):
+                        continue  # the big one only where it adds something
                     out.append((op, st, cn, code, tn, text, how))
     return out
 
